@@ -486,5 +486,133 @@ theorem toks_error (t : Tokenizer) (inv : Tokenizer.Inv t) (h : (Tokenizer.next 
   rw [← extract_split t.buf t.rawE (Tokenizer.next t).rawE t.buf.size (by rw [← hs]; exact hi1.raw)
     (by rw [← hb]; exact hi1.ok.le)]
 
+/-! ### merging of adjacent text tokens -/
+
+def textTok (c : Bytes) : Tok := { kind := .text, raw := c, name := [] }
+
+theorem normText_merge (c y : Bytes) (R : List Tok) :
+    normText (textTok (c ++ y) :: R) = normText (textTok c :: textTok y :: R) := by
+  simp only [normText]
+  cases hN : normText R with
+  | nil => simp [textTok]
+  | cons t' r =>
+    by_cases hk : t'.kind = .text
+    · simp [textTok, hk, List.append_assoc]
+    · simp [textTok, hk]
+
+theorem normText_prefix_congr (pre x y : List Tok) (h : normText x = normText y) :
+    normText (pre ++ x) = normText (pre ++ y) := by
+  induction pre with
+  | nil => exact h
+  | cons t ts ih => simp only [List.cons_append, normText, ih]
+
+theorem next_new_eq (d : Array Nat) : Tokenizer.next (Tokenizer.new d) = mainLoop (Tokenizer.new d) := by
+  unfold Tokenizer.next nextGo
+  rfl
+
+theorem next_of_err (t : Tokenizer) (h : t.err = true) : (Tokenizer.next t).token = .error := by
+  unfold Tokenizer.next nextGo
+  simp [h]
+
+theorem rawL_eq_take (t : Tokenizer) (h : t.rawS = 0) : rawL t = t.buf.toList.take t.rawE := by
+  unfold rawL; rw [extract_toList_eq, h]; simp
+
+/-- **a plain text cut by EOF merges with what follows**: for `c ≠ []` without `<`, the tokens of `c ++ a'` are, up to
+merging of adjacent text tokens, the text token `c` followed by the tokens of `a'`; same remainder. -/
+theorem toks_text_merge (c a' : Bytes) (hc : c ≠ []) (hno : ∀ b ∈ c, b ≠ 60) :
+    normText (toks (Tokenizer.new (c ++ a').toArray)).1 =
+      normText (textTok c :: (toks (Tokenizer.new a'.toArray)).1) ∧
+    (toks (Tokenizer.new (c ++ a').toArray)).2 = (toks (Tokenizer.new a'.toArray)).2 := by
+  have hU : Tokenizer.Inv (Tokenizer.new (c ++ a').toArray) := ⟨Nat.le_refl _, ⟨Nat.zero_le _, rfl, rfl, rfl⟩, TagOk_nil⟩
+  have hW : Tokenizer.Inv (Tokenizer.new a'.toArray) := ⟨Nat.le_refl _, ⟨Nat.zero_le _, rfl, rfl, rfl⟩, TagOk_nil⟩
+  generalize hUdef : Tokenizer.new (c ++ a').toArray = U at *
+  generalize hWdef : Tokenizer.new a'.toArray = W at *
+  have hUbuf : U.buf = (c ++ a').toArray := by rw [← hUdef]; rfl
+  have hWbuf : W.buf = a'.toArray := by rw [← hWdef]; rfl
+  have hU0 : U.rawS = 0 ∧ U.rawE = 0 ∧ U.err = false ∧ U.rawTag = [] ∧ U.allowCdata = true ∧ U.panic = false ∧
+      U.hang = false ∧ U.utf8Err = false := by rw [← hUdef]; exact ⟨rfl, rfl, rfl, rfl, rfl, rfl, rfl, rfl⟩
+  have hW0 : W.rawS = 0 ∧ W.rawE = 0 ∧ W.err = false ∧ W.rawTag = [] ∧ W.allowCdata = true ∧ W.panic = false ∧
+      W.hang = false ∧ W.utf8Err = false := by rw [← hWdef]; exact ⟨rfl, rfl, rfl, rfl, rfl, rfl, rfl, rfl⟩
+  have hclen : 0 < c.length := List.length_pos_of_ne_nil hc
+  -- the first call on `c ++ a'` = the main loop after skipping `c`
+  have hnU : Tokenizer.next U = mainLoop { U with rawE := c.length } := by
+    rw [← hUdef, next_new_eq, mainLoop_skip c.length _ rfl (by simp [Tokenizer.new]) (by
+      intro i hi
+      simp only [Tokenizer.new, Nat.zero_add]
+      rw [← Array.getElem?_toList]
+      simp only [List.toList_toArray]
+      rw [List.getElem?_append_left hi, List.getElem?_eq_getElem hi]
+      intro h; injection h with h
+      exact hno _ (List.getElem_mem hi) h)]
+    simp [Tokenizer.new]
+  have hnW : Tokenizer.next W = mainLoop W := by rw [← hWdef, next_new_eq]
+  -- the relation between the two main loops
+  have pre : Pre True c.length { U with rawE := c.length } W := by
+    refine ⟨by simp [hUbuf, hWbuf], ?_, fun _ => by simp [hUbuf, hWbuf], by simp [hW0.2.1], hU0.2.2.1.trans hW0.2.2.1.symm,
+      hU0.2.2.2.1.trans hW0.2.2.2.1.symm, hU0.2.2.2.2.1.trans hW0.2.2.2.2.1.symm,
+      hU0.2.2.2.2.2.1.trans hW0.2.2.2.2.2.1.symm, hU0.2.2.2.2.2.2.1.trans hW0.2.2.2.2.2.2.1.symm,
+      hU0.2.2.2.2.2.2.2.trans hW0.2.2.2.2.2.2.2.symm⟩
+    intro i hi
+    simp only [hUbuf, hWbuf] at hi ⊢
+    rw [← Array.getElem?_toList, ← Array.getElem?_toList]
+    simp only [List.toList_toArray]
+    rw [List.getElem?_append_right (by omega)]
+    simp
+  have po := mainLoop_pending { U with rawE := c.length } W pre ⟨by rw [hW0.2.1]; exact Nat.zero_le _, hW0.2.2.2.2.2.1,
+    hW0.2.2.2.2.2.2.1, hW0.2.2.2.2.2.2.2⟩ (by simp only [hU0.1, hW0.1]; omega) (by rw [hW0.1, hW0.2.1]; exact Nat.le_refl _)
+  rw [← hnU, ← hnW] at po
+  obtain ⟨p1, p2, p3, p4⟩ := po
+  have iU1 := next_inv' U hU
+  have iW1 := next_inv' W hW
+  have hneU : ¬ ((Tokenizer.next U).token == TokenType.error) = true := by rw [p1]; decide
+  have hrs0 : (Tokenizer.next U).rawS = 0 := by rw [p2]; exact hU0.1
+  have hbufU : (Tokenizer.next U).buf = (c ++ a').toArray := by rw [p3]; exact hUbuf
+  have htokU : tokOf (Tokenizer.next U) = textTok (rawL (Tokenizer.next U)) := by
+    unfold tokOf textTok; rw [p1]; rfl
+  rw [toks_unfold U hU, if_neg hneU, htokU]
+  simp only
+  rcases p4 with ⟨q1, q2, q3⟩ | ⟨q1, q2, q3, q4⟩
+  · -- the two main loops stopped together
+    have hsim := toks_sim_full _ _ q1 iU1 iW1
+    have hrawE := q1.rawE
+    have hbufW : (Tokenizer.next W).buf = a'.toArray := (next_buf' W hW).trans hWbuf
+    have hrawU : rawL (Tokenizer.next U) = c ++ a'.take (Tokenizer.next W).rawE := by
+      rw [rawL_eq_take _ hrs0, hbufU, hrawE]
+      simp only [List.toList_toArray]
+      rw [List.take_append]
+      simp
+    rcases q3 with q3 | ⟨q3, q4⟩
+    · have hneW : ¬ ((Tokenizer.next W).token == TokenType.error) = true := by rw [q3]; decide
+      have htokW : tokOf (Tokenizer.next W) = textTok (rawL (Tokenizer.next W)) := by
+        unfold tokOf textTok; rw [q3]; rfl
+      have hrawW : rawL (Tokenizer.next W) = a'.take (Tokenizer.next W).rawE := by
+        rw [rawL_eq_take _ (q2.trans hW0.1), hbufW]; simp
+      rw [toks_unfold W hW, if_neg hneW, htokW, hsim, hrawU, hrawW]
+      exact ⟨normText_merge _ _ _, rfl⟩
+    · -- `a'` is empty: nothing follows
+      have herrW := next_error_err W hW q3
+      have hW2 := toks_error _ iW1 (next_of_err _ herrW)
+      have hq : (Tokenizer.next W).rawE = 0 := q4.trans hW0.1
+      rw [toks_error W hW q3, hsim, hW2, hrawU, hq]
+      simp only [List.take_zero, List.append_nil]
+      refine ⟨rfl, ?_⟩
+      unfold restL
+      rw [hq, hW0.2.1, next_buf' W hW]
+  · -- the text `c` was flushed right before a tag of `a'`: restart
+    have hcd : (Tokenizer.next U).allowCdata = true := q4.trans hU0.2.2.2.2.1
+    have htag : (Tokenizer.next U).rawTag = [] := q3.trans hU0.2.2.2.1
+    have hre : (Tokenizer.next U).rawE = c.length := by rw [q1, hW0.1]; rfl
+    have hrs := toks_restart _ iU1 q2 htag hcd
+    have hres : restartOf (Tokenizer.next U) = W := by
+      unfold restartOf
+      rw [hbufU, hre, ← hWdef]
+      congr 1
+      apply Array.ext'
+      simp
+    have hrawU : rawL (Tokenizer.next U) = c := by
+      rw [rawL_eq_take _ hrs0, hbufU, hre]; simp
+    rw [hrs, hres, hrawU]
+    exact ⟨rfl, rfl⟩
+
 end Rio.Filter
 
